@@ -57,6 +57,8 @@ package swamp
 //@   ensures[budget_never_negative] !isnil(opts.CapBudgetLeft) && old(deref(opts.CapBudgetLeft)) >= 0 ==> deref(opts.CapBudgetLeft) >= 0
 //@   ensures[budget_spent_by_one_only] !isnil(opts.CapBudgetLeft) ==> deref(opts.CapBudgetLeft) == old(deref(opts.CapBudgetLeft)) || deref(opts.CapBudgetLeft) == old(deref(opts.CapBudgetLeft)) - 1
 //@   ensures[budget_spent_only_on_no_to_yes] !isnil(opts.CapBudgetLeft) && deref(opts.CapBudgetLeft) != old(deref(opts.CapBudgetLeft)) ==> lastretb("opts.CapPredicate") && (calls("opts.CapPredicate") == old(calls("opts.CapPredicate")) + 2 ==> !lastretb("prev:opts.CapPredicate")) && (res.Status == PatchStatusPatched || res.Status == PatchStatusCreated)
+//@   ensures[create_counts_as_not_matching_before] res.Status == PatchStatusCreated && !isnil(opts.CapPredicate) ==> calls("opts.CapPredicate") == old(calls("opts.CapPredicate")) + 1
+//@   ensures[no_to_yes_consumes_budget] !isnil(opts.CapBudgetLeft) && (res.Status == PatchStatusCreated || (res.Status == PatchStatusPatched && calls("opts.CapPredicate") == old(calls("opts.CapPredicate")) + 2 && !lastretb("prev:opts.CapPredicate"))) && calls("opts.CapPredicate") > old(calls("opts.CapPredicate")) && lastretb("opts.CapPredicate") ==> deref(opts.CapBudgetLeft) == old(deref(opts.CapBudgetLeft)) - 1
 //@   ensures[cap_exceeded_means_no_budget] res.Status == PatchStatusCapExceeded ==> (isnil(opts.CapBudgetLeft) || old(deref(opts.CapBudgetLeft)) <= 0) && lastretb("opts.CapPredicate")
 
 // ---------------------------------------------------------------------------------------
